@@ -378,6 +378,9 @@ func typeRangeOf(v *Val) (lo, hi constant.Value, ok bool) {
 		}
 		break
 	}
+	if v.Op == "buflen" || v.Op == "len" || v.Op == "cap" {
+		return constant.MakeInt64(0), constant.MakeInt64(1<<62), true // a length is never negative
+	}
 	if v.Op == "const" || v.Type == nil {
 		return nil, nil, false
 	}
